@@ -17,6 +17,7 @@ ThresholdEvent(e) ==
    /\ \A i \in 1..Len(e.ts) : IsThreshold(e.s0 + i - 1, e.ts[i])
 
 ThresholdQEvent(e) ==
+   /\ e.panic = FALSE
    /\ Len(e.qs) >= 1
    /\ \A i \in 1..Len(e.qs) : RIsNum(e.qs[i]) /\ RInUnit(e.qs[i], "0")
    /\ RIsNum(e.v)
